@@ -159,9 +159,20 @@ Theorem C03_rocks_restart_reads_storage : forall s mx, rs_good s ->
 Proof. exact new_log_rocks. Qed.
 Print Assumptions C03_rocks_restart_reads_storage.
 
-(* (13) goodness is reachable-closed: from a fresh engine, every sequence of FirstIndex / LastIndex / Term / Entries on
-        a non-empty range / CreateSnapshot / Compact not beyond the snapshot / contiguous gap-free Append / restart of
-        the storage object keeps the state good (ApplySnapshot is not in this list) *)
+(* (13) ApplySnapshot keeps the engine state good but is NOT MemoryStorage.ApplySnapshot on the view: MemoryStorage is
+        left with the dummy entry alone, RocksStorage writes the dummy at the snapshot index, deletes the keys below and
+        KEEPS every key above it (a follower's stale tail stays in the engine until a later Append truncates it) *)
+Theorem C03_rocks_apply_snapshot_keeps_tail : forall s si st s', rs_good s -> rs_head s <= si + 1 ->
+  rs_apply_snapshot s si st = Ok s' ->
+  rs_good s' /\ rs_off s' = si /\ rs_snapi s' = si /\ rs_snapt s' = st /\
+  rs_db s' = mkE st si 0 0 :: filter (fun e => si + 1 <=? eindex e) (rs_db s) /\
+  ms_apply_snapshot (rs_view s) si st = Ok (mkMS si st [mkE st si 0 0]).
+Proof. exact good_apply_snapshot. Qed.
+Print Assumptions C03_rocks_apply_snapshot_keeps_tail.
+
+(* (14) goodness is reachable-closed: from a fresh engine, every sequence of FirstIndex / LastIndex / Term / Entries on
+        a non-empty range / CreateSnapshot / ApplySnapshot not below the first key - 1 / Compact not beyond the snapshot /
+        contiguous gap-free Append / restart of the storage object keeps the state good *)
 Theorem C03_rocks_good_reachable : forall ops s, rs_good s -> rops_good s ops -> rs_good (fold_left rs_step ops s).
 Proof. exact good_reachable. Qed.
 Print Assumptions C03_rocks_good_reachable.
